@@ -224,7 +224,7 @@ func (la *LeapArray) currentBucketOfTime(now uint64, bg BucketGenerator) (*Bucke
 				return old, nil
 			}
 			// TODO: reserve for some special case (e.g. when occupying "future" buckets).
-			return nil, errors.New(fmt.Sprintf("Provided time timeMillis=%d is already behind old.BucketStart=%d.", bucketStart, old.BucketStart))
+			return nil, errors.New(fmt.Sprintf("Provided time timeMillis=%d is already behind old.BucketStart=%d.", bucketStart, atomic.LoadUint64(&old.BucketStart)))
 		}
 	}
 }
